@@ -31,20 +31,20 @@ type vfcCfg struct {
 }
 
 type vfcClient struct {
-	t     testing.TB
-	env   *vfEnv
-	fs    *vfsFS
-	tr    *vfTrace
-	cfg   vfcCfg
-	hp    map[uint64][]string // handle value -> path it was issued for
-	hs    []uint64
-	fid   map[uint64]string
-	n     int
-	cred  vfCred
-	verfN int
-	muts  int
-	hits  int
-	iss   [][]string // paths for which the current reply carried a handle
+	t       testing.TB
+	env     *vfEnv
+	fs      *vfsFS
+	tr      *vfTrace
+	cfg     vfcCfg
+	hp      map[uint64][]string // handle value -> path it was issued for
+	hs      []uint64
+	fid     map[uint64]string
+	n       int
+	cred    vfCred
+	verfN   int
+	muts    int
+	hits    int
+	iss     [][]string // paths for which the current reply carried a handle
 	pending M
 }
 
@@ -751,6 +751,11 @@ func TestVF_Core(t *testing.T) {
 	}
 	if profile == "ns" {
 		nd := vfcDirected(t, tr, nh, seed)
+		nh += nd
+		nontrivial += nd
+	}
+	if profile == "data" {
+		nd := vfcDirectedData(t, tr, nh, seed)
 		nh += nd
 		nontrivial += nd
 	}
